@@ -56,6 +56,7 @@ type Solver struct {
 	logDir    string
 	z3bin     string
 	forceCVC5 bool
+	Ctx       string
 }
 
 func NewSolver(timeoutMs int, z3bin string) *Solver {
@@ -334,10 +335,16 @@ func (s *Solver) Check(as []*Term, wantModel bool) (Result, Model) {
 		s.Stats.WallZ3 += d
 		s.Stats.QZ3++
 	}
+	if d > 2*time.Second && os.Getenv("GOSYM_DEBUG") != "" {
+		fmt.Fprintf(os.Stderr, "[slow query] %.1fs %s result=%v nassert=%d ctx=%s\n", d.Seconds(), p.name, res, len(live), s.Ctx)
+	}
 	if d > s.Stats.MaxQuery {
 		s.Stats.MaxQuery = d
 	}
 	s.Stats.Queries++
+	if s.Stats.Queries%500 == 0 && os.Getenv("GOSYM_DEBUG") != "" {
+		fmt.Fprintf(os.Stderr, "[query %d] ctx=%s res=%v nassert=%d\n", s.Stats.Queries, s.Ctx, res, len(live))
+	}
 	switch res {
 	case Sat:
 		s.Stats.Sat++
